@@ -488,7 +488,8 @@ def rule_casts(chk, prog, tier):
     fn = prog.require_func('castexpr', 'expr.c')
     TYPES = ['void', 'bool', 'char', 'int', 'ulong', 'float', 'double', 'ptr', 'fptr', 'struct', 'enum']
     SRC = ['int', 'char', 'ulong', 'float', 'double', 'ptr', 'fptr', 'struct', 'voidexpr', 'enum', 'bool']
-    cases = [((d,), s_) for d in TYPES for s_ in SRC] + [((d1, d2), s_) for d1 in ('float', 'ptr', 'int', 'void') for d2 in ('float', 'ptr', 'int', 'ulong') for s_ in ('int', 'ptr', 'float')]
+    cases = [((d,), s_) for d in TYPES for s_ in SRC] + [((d1, d2), s_) for d1 in ('float', 'ptr', 'int', 'void') for d2 in ('float', 'ptr', 'int', 'ulong') for s_ in ('int', 'ptr', 'float')] \
+        + [((d1, 'void'), s_) for d1 in ('int', 'ptr', 'float', 'void', 'bool') for s_ in ('int', 'struct')] + [(('void', 'int', 'void'), 'int'), (('int', 'void', 'void'), 'int'), (('void', 'void', 'int'), 'struct')]
     def cls(n):
         return {'void': 'void', 'voidexpr': 'void', 'struct': 'struct', 'float': 'flt', 'double': 'flt', 'ptr': 'ptr', 'fptr': 'ptr'}.get(n, 'int')
     for dsts, src in cases:
